@@ -168,6 +168,7 @@ func cmdC02(args []string) error {
 	mode := fs.String("mode", "model", "model | scen")
 	reps := fs.Int("reps", 4, "commits per pair")
 	sample := fs.Bool("sample", true, "model mode: seeded sample of the universe (false: case index = pair index)")
+	subset := fs.String("subset", "all", "model mode: all | nokind (pairs in which no path changes kind) | kind")
 	out := fs.String("out", "c02.ndjson", "trace output")
 	fs.Parse(args)
 	w, err := newNDJSON(*out)
@@ -176,6 +177,16 @@ func cmdC02(args []string) error {
 	}
 	builds := mBuilds()
 	npairs := len(builds) * len(builds)
+	var pool []int // pair indices of the chosen subset
+	if *mode == "model" && *subset != "all" {
+		for idx := 0; idx < npairs; idx++ {
+			kc := kindChange(builds[idx/len(builds)], builds[idx%len(builds)])
+			if (kc && *subset == "kind") || (!kc && *subset == "nokind") {
+				pool = append(pool, idx)
+			}
+		}
+		npairs = len(pool)
+	}
 	for k := *first; k < *first+*n; k++ {
 		rng := newRand(int64(2000 + k))
 		line := c02Line{Case: k, Mode: *mode, Reps: *reps, Outcomes: []mOutcome{}, NewList: []string{}, OutLists: [][]string{}, Errs: []string{}, Old: map[string]mEntry{}, New: map[string]mEntry{}}
@@ -188,6 +199,9 @@ func cmdC02(args []string) error {
 			}
 			if idx >= npairs {
 				break
+			}
+			if pool != nil {
+				idx = pool[idx]
 			}
 			line.Old, line.New = builds[idx/len(builds)], builds[idx%len(builds)]
 			line.KindChange = kindChange(line.Old, line.New)
